@@ -24,7 +24,9 @@ RULE = ("one run = 1-3 regular and 1-2 operating-point actors subscribed for rep
         "operating-point proposal, new system bounds (widen / shrink / shift, incl. between proposals), distribution "
         "result Success/PartialFailure/Error/none after a drawn delay, time advance incl. past the 60 s expiry; "
         "non-trivial = a bounds update arrived while both groups had a target; distinct = abstract digest of the event "
-        "sequence (kind, actor)")
+        "sequence (kind, actor)"
+        " Values also carry binary fractions of a watt; battery / EV-charger / PV pool category drawn; proposals"
+        " optionally through a BatteryPool front-end.")
 QUICK_RUNS = 4000
 THOROUGH_RUNS = 250_000
 EXPECT_PROBES = ["bounds_with_older_timestamp", "late_result_of_older_request", "two_component_groups", "bounds_update_between_proposals", "only_regular_changed", "only_op_changed", "partial_failure_result",
